@@ -382,7 +382,10 @@ def replay(ctx, model, edges, walks=0, walklen=8, allhist=0, histbudget=300000, 
     p = vh(a, timeout=timeout)
     if p.returncode != 0 or not os.path.exists(out):
         sys.stdout.write(p.stdout[-3000:] + p.stderr[-3000:])
-        raise ToolError("harness replay failed for %s (rc=%s)" % (model, p.returncode))
+        e = ToolError("harness replay failed for %s (rc=%s)" % (model, p.returncode))
+        e.rc = p.returncode
+        e.stderr = p.stderr[-600:]
+        raise e
     res = json.load(open(out))
     fails = res.pop("failures")
     samples = res.pop("samples")
